@@ -153,12 +153,16 @@ body(void) {
 #endif
 
 #elif MODE == K_KEYGEN
-	uint8_t *seed = v_buf(&IN.d, CV_BYTES), *priv = (uint8_t *)v_alloc(CV_BYTES);
+#ifndef SEEDX
+#define SEEDX 0		/* extra seed bytes behind the first EC_CURVE_CALC_BYTES ones: must be ignored */
+#endif
+	uint8_t seedsrc[CV_BYTES + 1] = { IN.d, IN.d2 };
+	uint8_t *seed = v_buf(seedsrc, CV_BYTES + SEEDX), *priv = (uint8_t *)v_alloc(CV_BYTES);
 	uint8_t *pub = (uint8_t *)v_alloc(3), *puby = (uint8_t *)v_alloc(CV_BYTES);
 	size_t psz = 777;
 	uint32_t d = ((IN.d < CV_N) ? IN.d : ((IN.d % (CV_N - 1)) + 1));
 	unsigned qi = ((d * CV_H) % CV_NTOT);
-	r = LCB_KEYGEN(&CV, seed, CV_BYTES, 0, priv, &psz, pub, puby, &sz);
+	r = LCB_KEYGEN(&CV, seed, CV_BYTES + SEEDX, 0, priv, &psz, pub, puby, &sz);
 	if (0 == d) {
 		V_ASSERT(0 != r || 1 == sz, "seed 0 does not yield a finite key");
 		V_WITNESS("seed zero");
@@ -189,6 +193,20 @@ body(void) {
 
 #elif MODE == K_DH
 	/* Alice d, Bob d2; public keys in packed form */
+#ifdef DH_ZERO_KEY
+	/* private key 0 (passes the d < n test): the shared point is the neutral element, the call must fail */
+	{
+		V_ASSUME(IN.d2 >= 1 && IN.d2 < CV_N);
+		unsigned qz = ((IN.d2 * CV_H) % CV_NTOT);
+		uint8_t pz[3] = { 4, TX[qz], TY[qz] }, zero = 0;
+		uint8_t *bpz = v_buf(pz, 3), *dz = v_buf(&zero, CV_BYTES), *sz0 = (uint8_t *)v_alloc(CV_BYTES);
+		size_t zz = 777;
+		int rz = LCB_DH(&CV, (0 != IN.cof), bpz, NULL, 3, dz, CV_BYTES, sz0, &zz);
+		V_ASSERT(0 != rz, "Diffie-Hellman whose shared point is the neutral element (private key 0) fails");
+		V_WITNESS("dh zero key");
+		return;
+	}
+#endif
 	V_ASSUME(IN.d >= 1 && IN.d < CV_N && IN.d2 >= 1 && IN.d2 < CV_N);
 	unsigned qa = ((IN.d * CV_H) % CV_NTOT), qb = ((IN.d2 * CV_H) % CV_NTOT);
 	uint8_t pa[3] = { 4, TX[qa], TY[qa] }, pb[3] = { 4, TX[qb], TY[qb] };
